@@ -488,3 +488,136 @@ def rule_library_names(ctx, rule='R11.l', packages=('pyPRISM.omega',)):
     if not bad:
         ctx.holds(rule, ','.join(packages), '%d library names resolve in the pinned numpy/scipy/math' % n)
     ctx.floor(rule, n, 10, 'library attribute chains in ' + ','.join(packages))
+
+
+# ---------------------------------------------------------------------------------------------
+# R11.h  evaluation histories
+# ---------------------------------------------------------------------------------------------
+def _models(prog):
+    """(qualname, constructor) for every shipped analytic model; DiscreteKoyama is built around its constructor
+    (the bending-energy solve is R11.v/R11.s business) with the kernel kept symbolic"""
+    def plain(qual, kw):
+        def make(ip):
+            o = ip.construct(prog.cls(qual), [], kw(ip))
+            o.origin = 'self'
+            return o
+        return qual, make
+    Nsym = lambda ip: Num(ip.declare('N', integer=True))
+    out = [
+        plain(OM + 'Gaussian::Gaussian', lambda ip: {'sigma': Num(ip.declare('sigma')), 'length': Nsym(ip)}),
+        plain(OM + 'FreelyJointedChain::FreelyJointedChain', lambda ip: {'l': Num(ip.declare('l')), 'length': Nsym(ip)}),
+        plain(OM + 'GaussianRing::GaussianRing', lambda ip: {'sigma': Num(ip.declare('sigma')), 'length': const_num(5)}),
+        plain(OM + 'NonOverlappingFreelyJointedChain::NonOverlappingFreelyJointedChain',
+              lambda ip: {'l': Num(ip.declare('l')), 'length': Num(N.isym('N'))}),
+        plain(OM + 'SingleSite::SingleSite', lambda ip: {}),
+        plain(OM + 'NoIntra::NoIntra', lambda ip: {}),
+        plain(OM + 'InterMolecular::InterMolecular', lambda ip: {}),
+    ]
+
+    def koyama(ip):
+        ip.natives[('DiscreteKoyama', 'koyama_kernel_fourier')] = _kk_any
+        return Obj(prog.cls(KOY), {'length': const_num(4), 'value': NONE}, 'self')
+    out.append((KOY, koyama))
+    return out
+
+
+def _kk_any(ip, o, args, kwargs, node):
+    b = dict(zip(['k', 'n'], args))
+    b.update(kwargs)
+    n, _ = ip.term_of(b['n'], node)
+    kt, _ = ip.term_of(b['k'], node)
+    return ip.fresh_array(N.fn('KkOf', kt, n))
+
+
+def _history_run(prog, make, mode, preset):
+    ip = _ip(prog)
+    ip.preset = list(preset)
+    for s_ in ('k1', 'junk'):
+        ip.declare(s_, 'curve')
+    o = make(ip)
+    calc = lambda arr: ip.call(ip.find_method(o, 'calculate'), [arr], {})
+    if mode == 'fresh':
+        res = calc(Arr(N.sym('k'), 'k', ip))
+    elif mode == 'new-array':            # evaluated on another grid before
+        calc(Arr(N.sym('k1'), 'k_first_call', ip))
+        res = calc(Arr(N.sym('k'), 'k', ip))
+    elif mode == 'same-array-mutated':   # the caller re-uses its grid buffer: same array object, new contents
+        ka = Arr(N.sym('k1'), 'k', ip)
+        calc(ka)
+        ka.t = N.sym('k')
+        res = calc(ka)
+    elif mode == 'result-mutated':       # the caller edits the array it got back, then evaluates again
+        r1 = calc(Arr(N.sym('k'), 'k_first_call', ip))
+        root = r1
+        while isinstance(root, View):
+            root = root.base
+        if isinstance(root, Arr):
+            root.t = N.sym('junk')
+        res = calc(Arr(N.sym('k'), 'k', ip))
+    else:
+        raise AssertionError(mode)
+    return ip, {'res': res, 'obj': o}
+
+
+def _assumed_equalities(decisions):
+    """substitution implied by array_equal(x,y) / allclose(x,y) conditions that the path assumed true (plain symbols)"""
+    import re
+    m = {}
+    for c, b, loc in decisions:
+        t = c.key()
+        if b and t[0] == 'flag':
+            mm = re.match(r'^(?:array_equal|allclose)\((\w+),(\w+)\)$', t[1])
+            if mm:
+                a_, b_ = mm.group(1), mm.group(2)
+                if a_ == 'k':
+                    a_, b_ = b_, a_
+                m[a_] = N.sym(b_)
+    return m
+
+
+def rule_history(ctx, rule='R11.h'):
+    """omega(k) returned by a model depends on the k of *this* call only: evaluated (a) after an evaluation on another
+    grid, (b) on the same array object whose contents the caller changed in place, (c) after the caller modified the
+    previously returned array -- it must be the term a fresh model returns.  (Memoisation on a *copy* of k guarded by
+    an equality test passes: under the assumed equality the cached value is the right one.)"""
+    n = 0
+    for qual, make in _models(ctx.prog):
+        cls = ctx.prog.cls(qual)
+        m = cls.find_method('calculate')
+        try:
+            (_, ipf, rf), = explore(lambda preset: _history_run(ctx.prog, make, 'fresh', preset))[:1]
+            tf = _term(ipf, rf['res'])
+        except (Unsupported, Raised, ValueError) as e:
+            ctx.undecided(rule, qual, 'fresh evaluation: %s' % e, m.loc())
+            continue
+        bad = []
+        und = []
+        paths = 0
+        for mode in ('new-array', 'same-array-mutated', 'result-mutated'):
+            try:
+                worlds = explore(lambda preset: _history_run(ctx.prog, make, mode, preset))
+            except (Unsupported, Raised) as e:
+                und.append('%s: %s' % (mode, e))
+                continue
+            for dec, ip, r in worlds:
+                paths += 1
+                try:
+                    t = _term(ip, r['res'])
+                except Unsupported as e:
+                    und.append('%s: %s' % (mode, e))
+                    continue
+                sub = _assumed_equalities(dec)
+                t2 = N.subs(t, sub) if sub else t
+                if not t2.equals(tf):
+                    where = (' (when %s)' % ', '.join('%s is %s' % (c.show(), b) for c, b, _ in dec)) if dec else ''
+                    bad.append('history "%s"%s: returns %s where a fresh model returns %s' % (mode, where, N.show(t2)[:140], N.show(tf)[:140]))
+        if bad:
+            n += 1
+            ctx.violation(rule, qual, 'history', '; '.join(bad[:2]), m.loc())
+        elif und:
+            ctx.undecided(rule, qual, '; '.join(und[:2]), m.loc())
+        else:
+            n += 1
+            ctx.holds(rule, qual, 'three two-call histories (other grid before / same buffer re-used / returned array edited) give the '
+                      'value of a fresh model (%d paths)' % paths, m.loc())
+    ctx.floor(rule, n, 8, 'analytic omega models with a two-call history check')
